@@ -37,19 +37,23 @@ fn c08_boolean_field() {
     assert!(<Boolean as PrimeField>::PRIME == 2 && <Boolean as SharedValue>::BITS == 1);
 }
 
-/// conversions from integers: truncate_from keeps the low bit; try_from accepts exactly 0 and 1 (Ok side)
+/// `format!` only builds the error message (see kani/field_common.rs)
+fn stub_format(_args: std::fmt::Arguments<'_>) -> String {
+    String::new()
+}
+
+/// conversions from integers: truncate_from keeps the low bit; try_from accepts exactly 0 and 1
 #[kani::proof]
+#[kani::stub(alloc::fmt::format, stub_format)]
 fn c08_boolean_conversions() {
     let v: u128 = kani::any();
     kani::cover!(v == 1);
     kani::cover!(v > 1 && v & 1 == 0);
     assert!(Boolean::truncate_from(v).0 == (v & 1 == 1));
     assert!(Boolean::from_random_u128(v).0 == (v & 1 == 1));
-    if v < 2 {
-        match Boolean::try_from(v) {
-            Ok(b) => assert!(b.0 == (v == 1)),
-            Err(_) => assert!(false, "0 and 1 must be accepted"),
-        }
+    match Boolean::try_from(v) {
+        Ok(b) => assert!(v < 2 && b.0 == (v == 1)),
+        Err(_) => assert!(v >= 2),
     }
     assert!(Boolean::from(v & 1 == 1).0 == (v & 1 == 1));
 }
